@@ -192,6 +192,7 @@ structure PState where
   hadTakeover : Bool := false
   taken : List Nat := []                              -- sessions that were themselves taken over
   assocPeer : List (String × Nat) := []               -- node id ↦ the peer it (last) associated from
+  repOf : List ((Nat × Nat) × Nat) := []              -- (peer, wire seq) of an outstanding report ↦ UP SEID of the reporting session
 deriving Inhabited
 
 def eventKind (toks : List String) : String := lookD (kvs toks) "kind" (toks.headD "")
@@ -274,6 +275,22 @@ def check (ps : PState) (evLine : String) (obs : List String) (fault : Option St
         | some o => s.cp == o.2.2 && s.naddr == s!"p{peer}"
         | none => false
       else false
+    -- C01 / C05: the peer answers the report of a session with SEID 0 ("no such session here"): that session ends and every
+    -- rule of it is withdrawn — whichever other sessions carry the same control-plane SEID
+    if typ == "recv" && kind == "srrsp" && seid == 0 then
+      match ps.repOf.find? (·.1 == (peer, seq)), ps.outst.find? (·.1 == (peer, seq)) with
+      | some (_, x), some o =>
+        match prev.live x with
+        | some sx =>
+          let mine := prev.sess.filter fun t => t.cp == o.2.2 && t.naddr == s!"p{peer}"
+          if sx.cp == o.2.2 && sx.naddr == s!"p{peer}" && mine.length == 1 then
+            if (d.live x).isSome then
+              fs := fs ++ [s!"C01 p{peer} answered the report of session {hexN x} (control-plane SEID {hexN sx.cp}) with SEID 0: the session must end; it is still there",
+                           s!"C05 the SEID-0 answer of p{peer} to the report of session {hexN x} did not remove that session"]
+            if d.dp.any (·.1 == x) then
+              fs := fs ++ [s!"C01 rules of session {hexN x} remain in the data plane after its peer answered its report with SEID 0"]
+        | none => pure ()
+      | _, _ => pure ()
     if !isDup then
       for s in gone do
         if !justified s then
@@ -589,9 +606,14 @@ def check (ps : PState) (evLine : String) (obs : List String) (fault : Option St
     else ps.cache
   let newReqs := if typ == "tmo" then [] else
     (sends.filter (·.kind == "srreq")).map fun s => ((s.peer, natD (lookD s.f "seq" "0")), (s.raw, hexD (lookD s.f "seid" "0")))
+  let newRep := if typ == "report" then
+      (sends.filter (·.kind == "srreq")).map fun s => ((s.peer, natD (lookD s.f "seq" "0")), seid) else []
+  let repOf0 := if typ == "recv" && (kind == "srrsp" || kind == "orsp") then ps.repOf.filter (·.1 != (peer, seq)) else ps.repOf
+  let repOf1 := (if typ == "tmo" && lookD m "k" "" == "tx" && !(d.tx.any fun t => t.1 == s!"p{peer}-{seq}")
+    then repOf0.filter (·.1 != (peer, seq)) else repOf0) ++ newRep
   let outst0 := if typ == "recv" && (kind == "srrsp" || kind == "orsp") then ps.outst.filter (·.1 != (peer, seq)) else ps.outst
   let outst1 := if typ == "tmo" && lookD m "k" "" == "tx" && !(d.tx.any fun t => t.1 == s!"p{peer}-{seq}")
     then outst0.filter (·.1 != (peer, seq)) else outst0
-  ({ ps with prev := d, cache := cache', outst := outst1 ++ newReqs, nextSeqn := seq1, c12 := c12', own := own', hadTakeover := hadTakeover', taken := taken', assocPeer := assocPeer' }, fails)
+  ({ ps with prev := d, cache := cache', outst := outst1 ++ newReqs, nextSeqn := seq1, c12 := c12', own := own', hadTakeover := hadTakeover', taken := taken', assocPeer := assocPeer', repOf := repOf1 }, fails)
 
 end UpfVerif.Driver.CtlProps
